@@ -16,8 +16,15 @@ per database) and loaded through the real loader; then for EVERY layer
 
 Passes: "core" (one simple + one complex parameter at the same placement; all hierarchies up to the bound), "all" (all
 eleven named parameters the accessors read, smaller bound), "cross" (simple and complex parameter placed independently,
-small bound: the two parameters must not influence each other), "subsets" (one layer, one instance, every subset of
-omitted sub-values).
+small bound: the two parameters must not influence each other; and CP_CANFDTxMaxDataLength placed independently of
+CP_CANFDBaudrate + CP_UniqueRespIdTable), "stack" (every instance with / without a PROT-STACK-SNREF -- alone and together
+with PROTOCOL-SNREF; the protocol qualifier must survive), "nested" (specifications of the complex parameter whose first /
+second sub-parameter is a nested COMPLEX-COMPARAM: the slots of the COMPLEX-VALUE must stay aligned with the sub-parameter
+names), "subsets" (one layer, one instance, every subset of omitted sub-values, for every specification variant).
+
+Given CP_CANFDTxMaxDataLength values alternate between CAN-FD and classic CAN with layer and qualifier, so definitions for
+different protocols disagree; uses_can / uses_can_fd / get_can_fd_baudrate / get_max_can_payload_size are judged per
+protocol query (refcomparam.can_fd_expectation).
 
 The oracle is three-valued where the property text is silent -- see odxmodel/refcomparam.py.  The lookup and accessor
 oracles are evaluated on the view / on the instance the real code produced, so one root cause gives one finding key.
@@ -454,7 +461,7 @@ def plan(quick: bool) -> Tuple[List[Tuple[Any, ...]], Dict[str, Any], int]:
     """-> (units, bounds, number of placement vectors the units must enumerate)"""
     bounds = {"core_layers": 3 if quick else 4, "all_layers": 2 if quick else 3, "cross_layers": 1 if quick else 2,
               "fd_cross_layers": 1 if quick else 2, "stack_layers_all_four_modes": 2, "stack_layers_given_only": 2 if quick else 3,
-              "nested_core_layers": 2 if quick else 3, "nested_all_layers": 1 if quick else 2}
+              "nested_core_layers": 2, "nested_all_layers": 1 if quick else 2}
     units: List[Tuple[Any, ...]] = []
     expect = 0
 
